@@ -997,6 +997,9 @@ pub enum Op {
 	Cancel { slot: usize, responder: bool },
 	/// post the finalized transaction, mine a block, refresh both wallets
 	PostMine { slot: usize },
+	/// the counterparty posts the initiator's own first slate back to the initiator's foreign
+	/// finalize_tx (wrong state: refused); the refusal is a message handed to a peer too
+	EchoFinalize { slot: usize },
 }
 
 #[derive(Clone, Debug, Serialize, Deserialize)]
@@ -1391,6 +1394,17 @@ impl M {
 					Err(e) => out.label = e,
 				}
 			}
+			Op::EchoFinalize { slot } => {
+				let s = sl[*slot].as_mut().unwrap();
+				let s1 = slate_from_json(&s.s1);
+				let ini = w.w(s.kind.initiator());
+				let (r, raw) = foreign_rpc(ini, "finalize_tx", &s1);
+				msgs.push(("echo-finalize:foreign-rpc-reply".into(), raw.into_bytes()));
+				out.label = match r {
+					Ok(_) => "ok".into(),
+					Err(e) => e,
+				};
+			}
 			Op::Cancel { slot, responder } => {
 				let s = sl[*slot].as_mut().unwrap();
 				let who = if *responder { s.kind.responder() } else { s.kind.initiator() };
@@ -1522,6 +1536,9 @@ impl Model for M {
 					}
 					if s.s2.is_some() {
 						v.push(Op::Finalize { slot: i });
+					}
+					if s.s3_tx.is_none() && !s.cancel_i {
+						v.push(Op::EchoFinalize { slot: i });
 					}
 					v.push(Op::Cancel { slot: i, responder: false });
 					if s.kind.initiator() != s.kind.responder() && s.s2.is_some() {
